@@ -486,6 +486,24 @@ func init() {
 		}
 		return nil, true
 	}
+	// sync.Mutex / RWMutex: exploration is single-threaded, locking is a no-op.
+	for _, n := range []string{"(*sync.Mutex).Lock", "(*sync.Mutex).Unlock", "(*sync.RWMutex).Lock", "(*sync.RWMutex).Unlock", "(*sync.RWMutex).RLock", "(*sync.RWMutex).RUnlock"} {
+		externals[n] = func(p *Path, _ *frame, _ *ssa.Function, a []Value) (Value, bool) { return nil, true }
+	}
+	// sync/atomic.Value: one cell per object in per-path state (kept in the
+	// sync.Map store under a reserved key).
+	externals["(*sync/atomic.Value).Load"] = func(p *Path, _ *frame, _ *ssa.Function, a []Value) (Value, bool) {
+		key := smKey(p, a[0])
+		if l := p.syncMaps[key]; len(l) > 0 {
+			return l[0][1], true
+		}
+		return Iface{}, true
+	}
+	externals["(*sync/atomic.Value).Store"] = func(p *Path, _ *frame, _ *ssa.Function, a []Value) (Value, bool) {
+		key := smKey(p, a[0])
+		p.syncMaps[key] = [][2]Value{{Iface{}, a[1]}}
+		return nil, true
+	}
 	externals["(*strings.Builder).WriteString"] = func(p *Path, _ *frame, _ *ssa.Function, a []Value) (Value, bool) {
 		if _, ok := a[1].(*AbsNum); ok {
 			p.unsupported("WriteString(abstract number text)")
